@@ -205,6 +205,43 @@ def run_case(case, obs=None):
         cv.decode_bits(bytearray(exp), {k: lay[k] for k in order}, res)
         if bytes(res.get("blob", b"?")) != value or (with_bits and res.get("f") != 0xABC):
             out.append(("decode_blob", "%s len=%d off=%d of %s -> %r" % (bk, length, offset, exp.hex(), res)))
+    elif kind == "shared":
+        _, akind, bkind, at, pat = case
+        lay_a = {"bits": {"a1": [0xFFF0, 0], "a2": [0x0F, 1], "a3": [0x80, 2]}, "blob": {"a1": ("b", 0, 2), "a2": ("b", 2, 1)},
+                 "mixed": {"a1": ("b", 0, 1), "a2": [0x7F80, 1], "a3": [0x3F, 2]}}[akind]
+        val_a = {"bits": {"a1": 0xABC, "a2": 0x5, "a3": 1}, "blob": {"a1": bytearray(b"\x12\x34"), "a2": bytearray(b"\x56")},
+                 "mixed": {"a1": bytearray(b"\x9a"), "a2": 0xC3, "a3": 0x2A}}[akind]
+        lay_b = {"bits": {"b1": [0xFFFFFF, 4], "b2": [0xF0, 7]}, "blob": {"b1": ("w", 4, 2)}}[bkind]
+        val_b = {"bits": {"b1": 0x00C0DE, "b2": 0x9}, "blob": {"b1": bytearray(b"\xde\xad\xbe\xef")}}[bkind]
+        prior = bytes([PRIORS[pat]]) * 8
+        # expectation from the independent oracle: both sets of fields deposited into the prior content (blobs replace, bit fields XOR)
+        ref = bytearray(prior)
+        cv2 = _conv()
+        cv2.encode_dict(dict(val_b), lay_b, ref)
+        only_b = bytes(ref)
+        buf = bytearray(prior)
+
+        class Lazy(dict):
+            fetched = 0
+
+            def __getitem__(self, key):
+                if Lazy.fetched == at:
+                    cv.encode_dict(dict(val_b), lay_b, buf)          # the other writer, in full, into bytes 4-7 of the same buffer
+                Lazy.fetched += 1
+                return dict.__getitem__(self, key)
+        try:
+            cv.encode_dict(Lazy(val_a), lay_a, buf)
+        except Exception as e:   # noqa: BLE001
+            return [("encode_shared", "two encodes sharing a buffer: raised %s: %s" % (type(e).__name__, e))]
+        if obs is not None:
+            obs.append(bytes(buf))
+        if Lazy.fetched <= at:
+            return []
+        if bytes(buf[4:8]) != only_b[4:8]:
+            out.append(("encode_shared", "fields %s of bytes 0-2 encoded while another encode (fields %s, bytes 4-7) ran in between (at value fetch #%d, prior %s): bytes 4-7 are %s, "
+                        "the other encode had written %s - an encode wrote outside the bits of its own fields" % (akind, bkind, at, pat, bytes(buf[4:8]).hex(), only_b[4:8].hex())))
+        if bytes(buf[3:4]) != prior[3:4]:
+            out.append(("encode_shared", "byte 3 (no field) changed to %s" % bytes(buf[3:4]).hex()))
     elif kind == "blobs":
         # several blobs of different kinds (and a bit field) in one layout, supplied in the given order, with bytes after each
         _, specs, order, pat = case
@@ -293,7 +330,7 @@ def replay(case):
 
 # ---------------------------------------------------------------------------------
 def partitions(tier):
-    parts = [["int"], ["blob"], ["blobs", 2], ["blobs", 3], ["split"]]
+    parts = [["int"], ["blob"], ["blobs", 2], ["blobs", 3], ["split"], ["shared"]]
     for w in (152, 256, 264, 512):          # masks wider than 9 / 19 / 32 bytes
         parts.append(["single", w])
     for w in range(1, 73):
@@ -368,6 +405,14 @@ def gen(part, tier):
                                 for hsel in range(3):
                                     for order in (0, 1):
                                         yield ("split", lo_w, hole_w, hi_w, shift, offset, vsel, hsel, order, "FF" if (vsel + hsel) % 2 else "00")
+    elif kind == "shared":
+        # two encodes into ONE buffer that overlap in time: the second (fields of bytes 4-7) runs to completion while the first (fields
+        # of bytes 0-2) is fetching its k-th value from a lazy mapping; each writes its own bits only, so both survive
+        for akind in ("bits", "blob", "mixed"):
+            for bkind in ("bits", "blob"):
+                for at in (0, 1, 2):
+                    for pat in ("00", "FF", "A5"):
+                        yield ("shared", akind, bkind, at, pat)
     elif kind == "blobs":
         nb = part[1]
         kinds = [("b", 1), ("b", 3), ("w", 1), ("w", 2), ("dw", 1), ("dw", 2)]
